@@ -804,6 +804,29 @@ struct Extractor {
     o["line"] = lineOf(FD->getLocation());
     o["nparams"] = (int)FD->getNumParams();
     o["templated"] = FD->isTemplated();
+    // "sig": the signature as written in the pattern (dependent types unexpanded) - the source-order independent
+    // discriminator of overloads that share a key (facts.TU numbers overloads by it, not by line).
+    {
+      const FunctionDecl *P = FD->getTemplateInstantiationPattern();
+      if (!P) P = FD;
+      std::string sg;
+      llvm::raw_string_ostream os(sg);
+      PrintingPolicy PP(FD->getASTContext().getLangOpts());
+      PP.SuppressTagKeyword = true;
+      if (const FunctionTemplateDecl *FT = P->getDescribedFunctionTemplate()) {
+        os << "template<";
+        bool first = true;
+        for (const NamedDecl *ND : *FT->getTemplateParameters()) {
+          if (!first) os << ", ";
+          first = false;
+          ND->print(os, PP);
+        }
+        os << "> ";
+      }
+      P->getType().print(os, PP);
+      os.flush();
+      o["sig"] = sg;
+    }
     patterns.push_back(std::move(o));
   }
 
